@@ -19,7 +19,7 @@
     Those rest on the correspondence (model = implementation for prefiltered match_to of all eight
     classes) and on the planted-occurrence / brute-force / cut-position oracle run against the
     implementation. *)
-From Coq Require Import ZArith List Bool.
+From Coq Require Import ZArith List Bool Lia.
 From CV Require Import Generated.Scores Model.Align Model.Adapters Model.Kmer Proofs.AdapterProofs Proofs.KmerProofs Proofs.AlignDist Proofs.AlignComplete.
 Import ListNotations.
 Open Scope Z_scope.
